@@ -80,6 +80,14 @@ var hostileSeeds = []string{
 	`{"type":"a/b","key":"c","value":{"id":"c"},"headers":{"operation":"update","txid":"t"}}`,
 	`{"type":"loose","key":"z","value":{"anything":[1,2,3]},"headers":{"operation":"insert"}}`,
 	`{"type":"ghost","key":"1","value":{},"headers":{"operation":"insert"}}`,
+	// objects that leave fields out
+	`{"key":"1"}`,
+	`{"key":"2","headers":{}}`,
+	`{"headers":{"operation":"delete"}}`,
+	`{"value":{"id":"1","name":"M"},"headers":{"operation":"update"}}`,
+	`{"type":"user","headers":{"operation":"delete"}}`,
+	`{"type":null,"key":null,"value":{"id":"c","name":"N"},"headers":{"operation":null}}`,
+	`{"key":"c","value":{"id":"c","name":"N"}}`,
 }
 
 var mutationsFrom = []string{`"insert"`, `"user"`, `"1"`, `{"id":"1","name":"x"}`, `"headers"`, `"operation"`, `"control"`, `"reset"`, `"value"`, `"type"`, `"key"`, `{"id":"c"}`}
